@@ -1,4 +1,5 @@
 import Lace.Props.C10
+import Lace.Props.C10Big
 #print axioms Lace.C10.paused_machine_on_trajectory
 #print axioms Lace.C10.stepInto_iter
 #print axioms Lace.C10.continue_iter
@@ -8,3 +9,4 @@ import Lace.Props.C10
 #print axioms Lace.C10.cmd_step
 #print axioms Lace.C10.cmd_stepInto
 #print axioms Lace.C10.cmd_refused_at_halt
+#print axioms Lace.C10.stepInto_exact
